@@ -24,8 +24,20 @@
 //   "31 s" = the OS did not call the handler (discarded), "32 s" = not a registered signal (not raised),
 //   "33 s" = disposition is not handler/ignore (not raised: it would kill the harness); "41 d1 d2 d3" after main() returned.
 //   Signal numbers are printed as case ids (callback argument, pending_).
+//   Further ops (OS-level modes only; ignored in direct mode): 5 = construct another application object (new App, never runs
+//   main()), 6 = destroy the most recently constructed other object, 7 = copy the running object and drop the copy
+//   ({ App snapshot(*this); }); scheduling-point codes 11 / 12 / 13.  The "40" / "41" records carry a 4th value
+//   r = Application::getInstance(): 0 null, 1 the running object, 2 another object; after "30 s": "34 s" = the handler is
+//   installed but getInstance() is not the running object (not raised: sigHandler would call through that pointer).
+//   After the last run the application object is destroyed: "42 r" (others still alive are destroyed after that).
+//   SIGALRM is signal id 4 (not in getSignals()): op 8 = setAlarm(3600) (scheduling-point code 14), op 9 = setAlarm(0) (code 15);
+//   mask bit 3 = SIGALRM ignored by the environment, mask bit 4 (16) = main() is run with --time-limit=3600 (it calls setAlarm itself);
+//   an expiring alarm is realised as raise(SIGALRM) at a scheduling point (decision 4) - the real timer never fires (alarm(0) at the
+//   end of every case).  "40"/"41" records: d1 d2 d3 d4 r.  Answers in OS-level modes: 0 stop, 2 = the callback first calls
+//   setAlarm(3600) and continues, 3 = calls setAlarm(3600) and stops, anything else continue.
 #include "common.h"
 #include <signal.h>
+#include <unistd.h>
 #define private public
 #define protected public
 #include <potassco/application.h>
@@ -41,12 +53,13 @@ static App* app = 0;
 static void yieldPoint(int k);
 
 static int  osMode = 0;                 // 0 = direct mode
-static const int REAL[4] = { 0, SIGINT, SIGTERM, SIGUSR1 };
+static const int NSIG_ = 4;
+static const int REAL[5] = { 0, SIGINT, SIGTERM, SIGUSR1, SIGALRM };
 static ll   decLeft = -1;               // decisions left for this run (-1 = no bound)
 static unsigned long entered = 0;       // number of processSignal activations started so far
 static ll toId(long real) {
 	if (!osMode || real == 0) return real;
-	for (int i = 1; i <= 3; ++i) { if (REAL[i] == real) return i; }
+	for (int i = 1; i <= NSIG_; ++i) { if (REAL[i] == real) return i; }
 	return 1000 + real;
 }
 static int dispCode(int sig) {
@@ -56,13 +69,14 @@ static int dispCode(int sig) {
 	if (old.sa_handler == SIG_DFL) return 0;
 	return old.sa_handler == &Potassco::Application::sigHandler ? 1 : 3;
 }
-static void printDisp(int tag) { o.add(tag); for (int i = 1; i <= 3; ++i) o.add(dispCode(REAL[i])); }
+static int instCode();
+static void printDisp(int tag) { o.add(tag); for (int i = 1; i <= NSIG_; ++i) o.add(dispCode(REAL[i])); o.add(instCode()); }
 static void clearMask() {
 	sigset_t m; sigemptyset(&m);
-	for (int i = 1; i <= 3; ++i) sigaddset(&m, REAL[i]);
+	for (int i = 1; i <= NSIG_; ++i) sigaddset(&m, REAL[i]);
 	sigprocmask(SIG_UNBLOCK, &m, 0);
 }
-static void setAll(void (*h)(int)) { for (int i = 1; i <= 3; ++i) signal(REAL[i], h); }
+static void setAll(void (*h)(int)) { for (int i = 1; i <= NSIG_; ++i) signal(REAL[i], h); }
 
 struct App : public Potassco::Application {
 	const char* getName()    const { return "h_c18"; }
@@ -81,13 +95,22 @@ struct App : public Potassco::Application {
 	void info(const char*) const {}
 	bool onSignal(int s) {
 		o.add(20); o.add(toId(s));
+		ll code = ansPos < answers.size() ? answers[ansPos] : 1;
+		if (osMode && (code == 2 || code == 3)) { setAlarm(3600); }   // a callback that re-arms the alarm (grace period) as its first action
 		yieldPoint(3);
-		bool a = ansPos < answers.size() ? answers[ansPos++] != 0 : true;
+		if (ansPos < answers.size()) ++ansPos;
+		bool a = osMode ? !(code == 0 || code == 3) : code != 0;
 		o.add(21); o.add(a ? 1 : 0);
 		return a;
 	}
 };
 
+static std::vector<App*> others;   // other application objects alive (ops 5 / 6)
+static App* self = 0;              // the object whose main() runs (kept after its destruction for the comparison only)
+static int instCode() {
+	Potassco::Application* i = Potassco::Application::getInstance();
+	return i == 0 ? 0 : (i == self ? 1 : 2);
+}
 static bool recording = true;
 static ll nextDecision() {
 	if (decLeft == 0) return 0;
@@ -104,9 +127,10 @@ static void yieldPoint(int k) {
 		if (d == 0) return;
 		o.add(30); o.add(d);
 		if (!osMode) { app->processSignal(static_cast<int>(d)); continue; }
-		if (d < 1 || d > 3) { o.add(32); o.add(d); continue; }
+		if (d < 1 || d > NSIG_) { o.add(32); o.add(d); continue; }
 		int dc = dispCode(REAL[d]);
 		if (dc != 1 && dc != 2) { o.add(33); o.add(d); continue; }
+		if (dc == 1 && instCode() != 1) { o.add(34); o.add(d); continue; }   // sigHandler would call processSignal through null / another object
 		unsigned long before = entered;
 		clearMask();
 		raise(REAL[d]);                      // the real entry point: the OS calls Application::sigHandler, or discards the signal
@@ -121,6 +145,11 @@ void App::execOps() {
 			case 2:  yieldPoint(8); unblockSignals(false); break;
 			case 3:  yieldPoint(8); unblockSignals(true); break;
 			case 4:  yieldPoint(7); shutdown(false); break;
+			case 5:  if (osMode) { yieldPoint(11); others.push_back(new App()); } break;
+			case 6:  if (osMode) { yieldPoint(12); if (!others.empty()) { delete others.back(); others.pop_back(); } } break;
+			case 7:  if (osMode) { yieldPoint(13); { App snapshot(*this); (void)snapshot; } } break;
+			case 8:  if (osMode) { yieldPoint(14); setAlarm(3600); } break;
+			case 9:  if (osMode) { yieldPoint(15); setAlarm(0); } break;
 			default: break;
 		}
 	}
@@ -129,10 +158,16 @@ void App::execOps() {
 	recording = false; // what main() itself does after run() (its own shutdown) is not part of the schedule
 }
 
+static int runMain(App& a, bool tl) {
+	char name[] = "h_c18"; char tlopt[] = "--time-limit=3600";
+	char* argv[] = { name, tl ? tlopt : 0, 0 };
+	return a.main(tl ? 2 : 1, argv);
+}
+
 int main() {
 	Case c;
 	Potassco::verifYieldHook_g = &yieldPoint;
-	char name[] = "h_c18"; char* argv[] = { name, 0 };
+	// (parseCommandLine removes the options it consumed from argv: a fresh argv for every main() call)
 	while (readCase(c)) {
 		cur = &c; osMode = 0; decLeft = -1; recording = false;
 		setAll(SIG_DFL); clearMask();   // cases are independent
@@ -148,42 +183,50 @@ int main() {
 		answers.clear(); ansPos = 0;
 		for (ll n = c.next(); n > 0 && c.more(); --n) answers.push_back(c.next());
 		try {
-			App a; app = &a; a.ops = &ops;
+			App* pa = new App(); App& a = *pa; app = pa; self = pa; a.ops = &ops;
+			const bool tl = osMode && ((mask >> 4) & 1);   // run main() with a time limit: it calls setAlarm(3600) itself
 			if (osMode == 0) {
 				ll h = 0; for (size_t i = 0; i != c.v.size(); ++i) h += c.v[i];
 				if ((h & 1) == 0) { recording = true; a.execOps(); }
 				else {
-					recording = false; a.active = false; a.main(1, argv);   // a complete first run (its shutdown takes a block)
-					recording = true;  a.active = true;  a.main(1, argv);   // the schedule runs inside the second run
+					recording = false; a.active = false; runMain(a, tl);   // a complete first run (its shutdown takes a block)
+					recording = true;  a.active = true;  runMain(a, tl);   // the schedule runs inside the second run
 					recording = false;
 				}
 			}
 			else {
-				for (int i = 1; i <= 3; ++i) signal(REAL[i], ((mask >> (i - 1)) & 1) ? SIG_IGN : SIG_DFL);   // what the environment left
+				for (int i = 1; i <= NSIG_; ++i) signal(REAL[i], ((mask >> (i - 1)) & 1) ? SIG_IGN : SIG_DFL);   // what the environment left
 				if (osMode == 1) {
-					recording = true; a.active = true; a.main(1, argv); recording = false;
+					recording = true; a.active = true; runMain(a, tl); recording = false;
 					printDisp(41);
 				}
 				else if (osMode == 2) {
-					recording = false; a.active = false; a.main(1, argv);
-					recording = true;  a.active = true;  a.main(1, argv); recording = false;
+					recording = false; a.active = false; runMain(a, tl);
+					recording = true;  a.active = true;  runMain(a, tl); recording = false;
 					printDisp(41);
 				}
 				else {
 					ll n1 = c.next(); if (n1 < 0) n1 = 0;
 					size_t p0 = c.p;
 					decLeft = n1;
-					recording = true; a.active = true; a.main(1, argv); recording = false;
+					recording = true; a.active = true; runMain(a, tl); recording = false;
 					printDisp(41);
 					c.p = (n1 < static_cast<ll>(c.v.size() - p0)) ? p0 + static_cast<size_t>(n1) : c.v.size();
 					decLeft = -1;
-					recording = true; a.main(1, argv); recording = false;
+					recording = true; runMain(a, tl); recording = false;
 					printDisp(41);
 				}
 			}
+			alarm(0);          // the real timer never fires
+			setAll(SIG_DFL);   // no handler may run once the object is gone
 			app = 0;
+			delete pa;         // ~Application: resetInstance(*this)
+			if (osMode) { o.add(42); o.add(instCode()); }
 		}
 		catch (...) { o.add(-1); }
+		alarm(0);
+		for (size_t i = 0; i != others.size(); ++i) delete others[i];
+		others.clear(); self = 0;
 		setAll(SIG_DFL);
 		o.flush();
 	}
